@@ -16,6 +16,10 @@ type conn struct {
 	// this is the same allocator used in packet manager
 	alloc      *allocator
 	sync.Mutex // used to serialise writes to sendPacket
+
+	// werr is the first error of a write to WriteCloser. A packet goes out in more than one Write,
+	// so after a failed one the framing of the stream is unknown: nothing more is sent.
+	werr error
 }
 
 // the orderID is used in server mode if the allocator is enabled.
@@ -30,7 +34,27 @@ func (c *conn) sendPacket(m encoding.BinaryMarshaler) error {
 	c.Lock()
 	defer c.Unlock()
 
-	return sendPacket(c, m)
+	return sendPacket(latchedWriter{c}, m)
+}
+
+// latchedWriter writes to the conn's WriteCloser until a write fails.
+// It then closes the WriteCloser, so that the peer sees the end of the stream
+// instead of a new packet behind a torn one, and fails every later write.
+// Called with the conn's mutex held.
+type latchedWriter struct {
+	c *conn
+}
+
+func (w latchedWriter) Write(p []byte) (int, error) {
+	if w.c.werr != nil {
+		return 0, w.c.werr
+	}
+	n, err := w.c.WriteCloser.Write(p)
+	if err != nil {
+		w.c.werr = err
+		w.c.WriteCloser.Close()
+	}
+	return n, err
 }
 
 func (c *conn) Close() error {
